@@ -291,7 +291,7 @@ def gen_single(seed, idx):
     other = [v for v in values if v != value] or [_default(field)]
     file_value_when_both = other[0]  # the file says something else; the flag must win
     srcs = sorted(B_SOURCES)
-    ops = [{"op": "write", "path": p, "content": c} for p, c in sorted(B_SOURCES.items())]
+    ops = [{"op": "write", "path": p, "content": c, "keep": True} for p, c in sorted(B_SOURCES.items())]  # the oracles know these four
     env = None
     if field == "glyphmap_generator":
         ops.append({"op": "write", "path": "$SIDE/gm/my_glyphmap.py", "content": "text:" + MY_GLYPHMAP, "keep": True})
@@ -481,8 +481,10 @@ def judge_single(case, res):
     for k, mode in enumerate(m["modes"]):
         r, i = lab["v%d" % k], ins["v%d" % k]
         if r["rc"] != 0 or not i.get("ok"):
+            tail = (r.get("steps_tail") or r.get("driver_tail") or "")
+            last = [l for l in tail.strip().split("\n") if l.strip()][-1:] or [""]
             out.append({"class": "variant-does-not-build", "detail": {"part": "B", "field": m["field"], "mode": mode, "value": m["value"], "fmt": m["fmt"],
-                                                                       "tail": (r.get("steps_tail") or r.get("driver_tail") or "")[-400:]}})
+                                                                       "cause": last[0].strip()[:120], "tail": tail[-400:]}})
             continue
         for oracle, d in _check_observables(m["var"], i["info"], m["field"]):
             out.append({"class": "option-not-reflected", "detail": {"part": "B", "field": m["field"], "oracle": oracle, "mode": mode,
